@@ -12,7 +12,7 @@ import (
 )
 
 func init() {
-	register(&Rule{ID: "D-DISPATCH", Props: []string{"C01", "C17", "C02", "C05", "C20", "C09", "C06", "C19", "C18", "C16", "C10", "C12", "C13", "C14"}, Floor: 100,
+	register(&Rule{ID: "D-DISPATCH", Props: []string{"C01", "C17", "C02", "C05", "C20", "C09", "C06", "C19", "C18", "C16", "C10", "C12", "C13", "C14", "C15"}, Floor: 100,
 		Doc: "The evaluator's dispatcher, by path enumeration once per node type the parser builds (thin wrappers around the recursive evaluation inlined, helpers named by what they are, any source form): every node type has a case; a node implemented by a helper evaluates its children once each, in declaration order, against the enclosing current value and scope, and returns exactly the result of the one helper that implements it (negated only for !=), with no path that bypasses the helper; the current-node variant of a node calls the same helper with the current value in place of the evaluated child; pipe evaluates its right operand against the left result; && and || return one of their operands and ! the negated truth of its operand, all through the one truth predicate; literals return the stored value, @ the current value, $ the root; a variable is looked up in the scope and is an undefined-variable error when absent; let evaluates its bindings in the outer scope and only its body in the one child scope; no other scope is ever created or substituted.",
 		Run: ruleDDispatch})
 }
